@@ -9,6 +9,7 @@ from ..loader import dotted, walk_no_nested
 from ..tables import op_classes
 from . import c10
 from .common_none import none_tests
+from .common_guard import path_facts
 
 WRITERS = [("io/blackbird_io.py", "to_blackbird"), ("io/xir_io.py", "to_xir"), ("io/utils.py", "generate_code")]
 FIELDS = {"select": "post-selection value of a measurement", "dark_counts": "dark counts of MeasureFock",
@@ -135,6 +136,34 @@ def keys(ctx, rule="C14.keys"):
     ctx.floor(rule, 10)
 
 
+def symbolic_kept(ctx, rule="C14.fields"):
+    ctx.explain(f"{rule}: (symbolic parameters) a writer writes a symbolic parameter symbolically: it does not call par_evaluate on the "
+                "parameters of the operations (after a run, or after bind_params, that replaces `2*q0` / `{alpha}` by the number of the "
+                "moment); and where it renames the loop variables of a time-domain program it renames EVERY occurrence (a loop over the "
+                "arguments, not a first-match lookup).")
+    for rel_, qn in (("io/blackbird_io.py", "to_blackbird"), ("io/xir_io.py", "to_xir"), ("io/utils.py", "generate_code")):
+        f = ctx.tree.func(rel_, qn)
+        # (evaluating an expression that contains NO symbols - a constant produced by a decomposition - is fine: the call must sit
+        #  on a path on which `free_symbols` of the value is known to be empty)
+        cfg_ = cfg_of(f.node)
+        ev = []
+        for c in walk_no_nested(f.node):
+            if isinstance(c, ast.Call) and (dotted(c.func) or "").split(".")[-1] == "par_evaluate":
+                ids = cfg_.node_of_expr(c)
+                const_only = bool(ids) and any(not v and "free_symbols" in ast.unparse(a) for a, v in path_facts(cfg_, ids[0]))
+                if not const_only:
+                    ev.append(c)
+        ctx.ob(rule, f.site, not ev, "" if not ev else f"{qn} evaluates symbolic operation parameters (`{ast.unparse(ev[0])[:40]}`): a program "
+               "that has been run or bound is written with numbers in place of its measured / free parameters",
+               role="no-evaluate", line=(ev[0].lineno if ev else f.node.lineno))
+        idx = [c for c in walk_no_nested(f.node) if isinstance(c, ast.Call) and isinstance(c.func, ast.Attribute) and c.func.attr in ("index", "find")
+               and any(isinstance(x, ast.Attribute) and x.attr in ("name",) or isinstance(x, ast.Call) and dotted(x.func) == "str"
+                       for a in c.args for x in ast.walk(a))]
+        ctx.ob(rule, f.site, not idx, "" if not idx else f"`{ast.unparse(idx[0])[:50]}` finds the first occurrence only: a loop variable "
+               "used in two argument slots keeps its raw symbolic form in the second", role="rename-all-occurrences",
+               line=(idx[0].lineno if idx else f.node.lineno))
+
+
 def names(ctx, rule="C14.names"):
     ctx.explain(f"{rule}: every operation class name a writer can emit (cmd.op.__class__.__name__ of a class that can sit "
                 "in a circuit) is accepted by the readers, which look names up in ops.__all__.")
@@ -194,6 +223,7 @@ def presence(ctx, rule="C14.presence"):
 def rules(ctx):
     presence(ctx)
     fields(ctx)
+    symbolic_kept(ctx)
     keys(ctx)
     names(ctx)
     c10.par_convert(ctx, "C14.par-convert")
